@@ -101,7 +101,7 @@ def cases(tier):
             for c1, c2, c3 in itertools.product(tri, tri, tri):
                 out.append(program(p, [c1, c2, c3], close))
     # items that are falsy (None, 0, '') - a queue hands out what was put, whatever it is
-    falsy = [[['TRY', [['PUT', 'q', None]]], ['TRY', [['PUT', 'q', 0]]]], [['D', 1], ['TRY', [['PUT', 'q', '']]], ['TRY', [['PUT', 'q', 'b1']]]]]
+    falsy = [[['TRY', [['PUT', 'q', 0]]], ['TRY', [['PUT', 'q', 'a1']]]], [['D', 1], ['TRY', [['PUT', 'q', None]]], ['TRY', [['PUT', 'q', '']]]]]
     for close in ('early', 'one', 'late'):
         for p in ([falsy[0]], [falsy[1]], falsy):
             for c1, c2 in itertools.product([consumer(0, 'get'), consumer(0, 'iter'), consumer(1, 'get2'), consumer(0, 'iter1')], repeat=2):
